@@ -223,7 +223,7 @@
     (buffer/push neg "-" t)
     (def nt (if (= x 0) "0" (string neg)))
     (def nt17 (if (= x 0) "-0" (string neg)))
-    (def y (- x))
+    (def y (* -1 x))   # IEEE negation: (- 0) is +0 since the unary minus fix
     (unless (and (= t (string x)) (= t (describe x)) (= t (string/format "%v" x))
                  (= t (string/format "%j" x)) (= t (string/format "%.17g" x))
                  (= t (string/format "%d" x))
